@@ -5,7 +5,7 @@ sys.path.insert(0, os.path.dirname(os.path.abspath(__file__)))
 import vf, swprop
 vf.main_wrapper(lambda: swprop.run(
     "C08", ["ScanWalk-F8-order.cfg", "ScanWalk-F8-rootsize.cfg", "ScanWalk-F8-gitorder.cfg", "ScanWalk-F8-linkorder.cfg"], [], ["ScanWalk-F8-anyorder.cfg"],
-    ["stream/plain", "fallback/nasty", "real/plain"],
+    ["stream/plain", "fallback/nasty", "real/plain", "wide/plain"],
     "every tree (<= 4 nodes of the 10-slot universe) x extractor 'required' sets x all 6 listing-order codes of every directory x 1..3 scan roots (and, one root, x .gitignore files and patterns), "
     "replayed through scalibr.Scan with the in-memory FS listing entries in the prescribed order; the expectation is order-free (declarative) and TLC "
     "additionally checks it under fully nondeterministic listing (Perms={0}); every extraction also emits a package tying on name and version so the "
